@@ -9,9 +9,20 @@ package main
 // multipart bodies, bodiless and HEAD messages) and the message is then serialised in two modes. Reference
 // model: identity (equal to the unlogged twin, no logger error), and every logger of the stack recorded the
 // exchange.
+//
+// Large reads. A pass-through wrapper (marbl's bodyLogger) sees reads as large as the consumer's buffer only
+// when an in-memory body lies under it and a large-buffer consumer above it: net/http's own copy loops read at
+// most 32 KiB at a time, but a snapshot's ReadAll grows its buffer with the body, and a modifier may read with
+// any buffer. The sub-space "big" therefore runs bodies of 65537, 131072 and 1 MiB bytes (one chunk, so that
+// chunk boundaries do not cap the reads) through {snapshotting logger -> marbl -> snapshotting logger},
+// {snapshotting logger -> marbl}, {in-memory body -> marbl} and {marbl alone}, serialised with Write and with
+// direct reads through buffers of 65537 bytes and 1 MiB.
 
 import (
+	"bytes"
 	"fmt"
+	"io"
+	"net/http"
 	"strings"
 	"sync/atomic"
 
@@ -76,6 +87,53 @@ func stackSpecs(tier string) []msggen.Spec {
 	return out
 }
 
+// inMemory is the pseudo logger that replaces the body by an in-memory copy (what any buffering modifier
+// upstream of the loggers leaves behind).
+const inMemory = "(in-memory body)"
+
+func bigStackSpecs(tier string) []msggen.Spec {
+	var out []msggen.Spec
+	for _, size := range []int{65537, 131072, 1 << 20} {
+		for _, kind := range []string{"request", "response"} {
+			framings := []string{"cl", "chunked"}
+			if kind == "response" {
+				framings = append(framings, "close")
+			}
+			for _, f := range framings {
+				s := msggen.Spec{Space: "stack", Kind: kind, Version: "1.1", Size: size, Framing: f, Enc: "none", CT: "binary"}
+				if f == "chunked" {
+					s.Chunking = "whole"
+				}
+				if kind == "request" {
+					s.Method, s.Query = "POST", 1
+				} else {
+					s.Status = 200
+				}
+				out = append(out, s)
+			}
+		}
+	}
+	return out
+}
+
+func bigStacks() [][]string {
+	snaps := []string{"har(all)", "martianlog(body)", "messageview(body)"}
+	snaps2 := []string{"har(all)", "martianlog(body,decode)", "messageview(body)"}
+	var out [][]string
+	for _, mb := range []string{"marbl(stream)", "marbl(modifier)"} {
+		out = append(out, []string{mb}, []string{inMemory, mb})
+		for _, a := range snaps {
+			out = append(out, []string{a, mb})
+			for _, b := range snaps2 {
+				out = append(out, []string{a, mb, b})
+			}
+		}
+	}
+	return out
+}
+
+var bigModes = []readMode{readModes[0], {"Body.Read(buf=65537)", "direct", 65537}, {"Body.Read(buf=1048576)", "direct", 1 << 20}}
+
 func runStackFamily(rep *lib.Report, tier string, workerCh chan *worker, only *replayCase) map[string]int64 {
 	specs := stackSpecs(tier)
 	modes := []readMode{readModes[0], readModes[5]}
@@ -99,18 +157,30 @@ func runStackFamily(rep *lib.Report, tier string, workerCh chan *worker, only *r
 			}
 		}
 	}
-	if only != nil {
-		specs = []msggen.Spec{only.Stack.Spec}
-		stacks = [][]string{only.Stack.Variants}
+	type job struct {
+		spec   msggen.Spec
+		stacks [][]string
+		modes  []readMode
 	}
-	var cases, transitions int64
+	var jobs []job
+	for _, s := range specs {
+		jobs = append(jobs, job{s, stacks, modes})
+	}
+	bigSpecs, bigSt := bigStackSpecs(tier), bigStacks()
+	for _, s := range bigSpecs {
+		jobs = append(jobs, job{s, bigSt, bigModes})
+	}
+	if only != nil {
+		jobs = []job{{only.Stack.Spec, [][]string{only.Stack.Variants}, append(append([]readMode{}, modes...), bigModes[1:]...)}}
+	}
+	var cases, bigCases, transitions int64
 	type pv struct {
 		sig, desc string
 		rc        replayCase
 	}
-	pending := make([][]pv, len(specs))
-	lib.Parallel(len(specs), func(i int) {
-		spec := specs[i]
+	pending := make([][]pv, len(jobs))
+	lib.Parallel(len(jobs), func(i int) {
+		spec, stacks, modes := jobs[i].spec, jobs[i].stacks, jobs[i].modes
 		m := msggen.Build(spec)
 		isReq := spec.Kind == "request"
 		var w *worker
@@ -141,10 +211,26 @@ func runStackFamily(rep *lib.Report, tier string, workerCh chan *worker, only *r
 					panic(err)
 				}
 				atomic.AddInt64(&cases, 1)
+				if len(m.Encoded) > 65536 {
+					atomic.AddInt64(&bigCases, 1)
+				}
 				fams := make([]string, len(st))
 				results := make([]applied, len(st))
 				bad := false
 				for k, name := range st {
+					if name == inMemory {
+						fams[k] = "inmemory"
+						body := &req.Body
+						if !isReq {
+							body = &res.Body
+						}
+						if *body != nil && *body != http.NoBody {
+							data, _ := io.ReadAll(*body)
+							(*body).Close()
+							*body = io.NopCloser(bytes.NewReader(data))
+						}
+						continue
+					}
 					v := byName[name]
 					fams[k] = v.Family
 					a := w.apply(v, m, req, secondRes(isReq, res), ctx)
@@ -170,7 +256,7 @@ func runStackFamily(rep *lib.Report, tier string, workerCh chan *worker, only *r
 				// their frames are counted together)
 				marblFrames, marblSeen := 0, false
 				for k, a := range results {
-					if a.err != nil {
+					if a.err != nil || a.recorded == nil {
 						continue
 					}
 					n := a.recorded()
@@ -197,9 +283,12 @@ func runStackFamily(rep *lib.Report, tier string, workerCh chan *worker, only *r
 		}
 	}
 	return map[string]int64{
-		"stack_messages":    int64(len(specs)),
-		"stack_stacks":      int64(len(stacks)),
-		"stack_cases":       cases,
-		"stack_transitions": transitions,
+		"stack_messages":     int64(len(specs)),
+		"stack_stacks":       int64(len(stacks)),
+		"stack_big_messages": int64(len(bigSpecs)),
+		"stack_big_stacks":   int64(len(bigSt)),
+		"stack_big_cases":    bigCases,
+		"stack_cases":        cases,
+		"stack_transitions":  transitions,
 	}
 }
